@@ -164,7 +164,7 @@ pub fn run_config(cfg: &Config, seed: u64, steps: usize, trace: &mut String, obs
                     sock.set_nodelay(true).unwrap();
                 }
             }
-            Ev::Eof(_) | Ev::Reset(_) | Ev::Tick(_) | Ev::Dump => {}
+            Ev::Eof(_) | Ev::Reset(_) | Ev::Idle(_) | Ev::Tick(_) | Ev::Dump => {}
         }
     }
     drop(sock);
